@@ -329,7 +329,8 @@ func (eval Evaluator) InnerFunction(ctIn *Ciphertext, batchSize, n int, f func(a
 
 	ringQ := params.RingQ().AtLevel(levelQ)
 
-	opOut.Resize(opOut.Degree(), levelQ)
+	// The result has degree 1: a receiver of larger degree must not keep its old components.
+	opOut.Resize(1, levelQ)
 	*opOut.MetaData = *ctIn.MetaData
 
 	P0 := params.RingQ().NewPoly()
